@@ -39,15 +39,21 @@ def build_harness(pkg="mh"):
     return time.time() - t0
 
 
-def run_tlc(spec, cfg_path, workdir, dump_dot=None, extra=(), timeout=3600, workers=None):
+def run_tlc(spec, cfg_path, workdir, dump_dot=None, extra=(), timeout=3600, workers=None, coverage=True):
     cmd = ["timeout", str(timeout), "tlc", "-workers", str(workers or WORKERS), "-metadir", os.path.join(workdir, "tlcmeta"),
-           "-cleanup", "-noGenerateSpecTE", "-coverage", "1"]
+           "-cleanup", "-noGenerateSpecTE"]
+    if coverage:
+        cmd += ["-coverage", "1"]
     if dump_dot:
         cmd += ["-dump", "dot,actionlabels", dump_dot]
     cmd += ["-config", cfg_path, *extra, spec]
     t0 = time.time()
     p = subprocess.run(cmd, cwd=os.path.join(ROOT, "spec"), capture_output=True, text=True)
     out = p.stdout + p.stderr
+    if p.returncode == 124:
+        # killed by the time limit: TLC leaves its state files behind
+        shutil.rmtree(os.path.join(workdir, "tlcmeta"), ignore_errors=True)
+        out += "\nTLC did not finish within %d s" % timeout
     m = re.search(r'(\d+) states generated, (\d+) distinct states found', out)
     res = {"tlc_s": round(time.time() - t0, 2), "ok": "No error has been found" in out,
            "generated": int(m.group(1)) if m else 0, "distinct": int(m.group(2)) if m else 0, "out": out}
@@ -130,11 +136,14 @@ def run_config(pid, name, consts, invariants, actprops, workdir, obs_sample, rep
     open(cfg_path, "w").write(configs.cfg_text(consts, invariants, actprops, base=K["base"], spec=tla_spec))
     spec = os.path.join(ROOT, "spec", K["spec"])
     dot = os.path.join(workdir, name + ".dot") if replay else None
-    r = run_tlc(spec, cfg_path, workdir, dump_dot=dot)
+    # (configurations that are only model-checked are the big ones: no coverage statistics, a longer limit)
+    r = run_tlc(spec, cfg_path, workdir, dump_dot=dot, coverage=replay, timeout=3600 if replay else 10800)
     info = {"config": name, "constants": {k: v for k, v in consts.items()}, "states": r["distinct"],
             "transitions": r["generated"], "depth": r["depth"], "tlc_s": r["tlc_s"], "actions_taken": r["actions"]}
     if not r["ok"]:
         sys.stderr.write(r["out"][-5000:])
+        if "TLC did not finish within" in r["out"]:
+            raise ToolError("TLC did not finish on config %s within its time limit" % name)
         raise ToolError("TLC reports an error on the design spec, config %s: %s (the specification, not the code, "
                         "is at fault until reproduced on the code)" % (name, violated_names(r["out"])))
     if not replay:
@@ -158,7 +167,7 @@ def run_config(pid, name, consts, invariants, actprops, workdir, obs_sample, rep
     t0 = time.time()
     binary = XH if K.get("binary") == "xh" else MH
     crashers = []
-    for attempt in range(12):
+    for attempt in range(20):
         prog = os.path.join(workdir, name + ".progress")
         if os.path.exists(prog):
             os.remove(prog)
@@ -190,11 +199,21 @@ def run_config(pid, name, consts, invariants, actprops, workdir, obs_sample, rep
         for cand, err in new_crashers:
             log("[%s]   the process was aborted while executing path %d of config %s: %s" % (pid, cand, name, " ".join(err.split())[-300:]))
             crashers.append(cand)
-    else:
-        raise ToolError("replay harness keeps dying on config %s" % name)
+        if len(crashers) >= 8:
+            break
     info["crash_ids"] = crashers
+    if not os.path.exists(res_file):
+        # the code under test keeps taking the process down: the paths found so far are the finding, the rest
+        # of this configuration's tour is not executed
+        log("[%s]   config %s: %d paths abort the process; the rest of the tour was not executed" % (pid, name, len(crashers)))
+        info.update({"replayed": 0, "conform": 0, "nonconform": len(crashers), "hung": 0, "inconclusive": 0, "replay_s": round(time.time() - t0, 2),
+                     "first_divergences": [], "nonconform_ids": crashers, "obs_events": 0, "monitor_s": 0, "viol": {}, "paths_file": paths_file, "hcfg": hcfg})
+        return info
     rr = json.load(open(res_file))
-    info.update({"replayed": rr["paths"], "conform": rr["conform"], "nonconform": rr["nonconform"], "hung": rr["hung"], "inconclusive": rr.get("inconclusive", 0),
+    if rr.get("not_executed_after_hangs"):
+        log("[%s]   %d paths of config %s blocked inside the code under test (no schedule point reached); %d further paths were not executed"
+            % (pid, rr["hung"], name, rr["not_executed_after_hangs"]))
+    info.update({"replayed": rr["paths"], "conform": rr["conform"], "nonconform": rr["nonconform"] + rr.get("not_executed_after_hangs", 0), "hung": rr["hung"], "inconclusive": rr.get("inconclusive", 0),
                  "replay_s": round(time.time() - t0, 2), "first_divergences": rr["first_divergences"][:3],
                  "nonconform_ids": rr["nonconform_ids"][:50]})
     mon = obsmon.monitor(obs_file, hcfg, os.path.join(workdir, "obsmon_" + name), spec=K["monitor"])
